@@ -157,4 +157,47 @@ theorem mutate_breaks_demo :
     have := h "values" 0 (by simp [run, step, demoObj, demoCompute])
     simp [run, step, demoObj, demoCompute, upd] at this
 
+/-! ## augmented assignment and "assign the same object back"
+
+`obj.x += d` on an ndarray attribute mutates the array in place and then calls `__setattr__` with
+the very same object; `p = obj.x; p[2] = z; obj.x = p` does the same in two statements.  In the
+model this is `mutate x f` followed by `assign x v` where `v` is the (already mutated) current value.
+`__setattr__` clears on the *name*, not on the value, so the pair behaves exactly like one
+assignment. -/
+
+/-- the in-place mutation followed by the assignment of a clearing attribute is the assignment -/
+theorem mutate_assign_eq_assign (o : Obj) (n : Name) (f : Val → Val) (v : Val) (hn : n ∈ o.static) :
+    step compute (step compute o (.mutate n f)) (.assign n v) = step compute o (.assign n v) := by
+  cases o with
+  | mk attrs cache static =>
+    simp only [step, hn, if_true]
+    congr 1
+    funext m
+    simp only [upd]
+    split <;> rfl
+
+/-- assigning the value the attribute already holds still clears the cache -/
+theorem assign_same_value_clears (o : Obj) (n : Name) (hn : n ∈ o.static) :
+    CacheEmpty (step compute o (.assign n (o.attrs n))) := by
+  intro p; simp [step, hn]
+
+/-- the variant of `__setattr__` that keeps the cache when the assigned value is the one the
+attribute already holds (the "same object, nothing changed" short-cut) -/
+def stepShortcut (compute : Name → (Name → Val) → Val) (o : Obj) : Step → Obj
+  | .assign n v => { o with attrs := upd o.attrs n v,
+                            cache := if n ∈ o.static ∧ o.attrs n ≠ v then fun _ => none else o.cache }
+  | s => step compute o s
+
+/-- … is not coherent: read, mutate in place, hand the same (mutated) value back, and the cached
+value is stale, while the real `__setattr__` leaves an empty cache -/
+theorem identity_shortcut_breaks :
+    let o1 := step demoCompute (step demoCompute demoObj (.read "values")) (.mutate "_buffers" (· + 1))
+    ¬ Coherent demoCompute (stepShortcut demoCompute o1 (.assign "_buffers" (o1.attrs "_buffers"))) ∧
+    Coherent demoCompute (step demoCompute o1 (.assign "_buffers" (o1.attrs "_buffers"))) := by
+  constructor
+  · intro h
+    have := h "values" 0 (by simp [stepShortcut, step, demoObj, demoCompute, upd])
+    simp [stepShortcut, step, demoObj, demoCompute, upd] at this
+  · exact (assign_static_coherent _ _ _ (by simp [step, demoObj])).1
+
 end Lazy
